@@ -165,7 +165,7 @@ class Engine(
     ) -> Select:
         # Docstring inherited.
         conformed_target = self.conform(target)
-        if conformed_target.has_sort and not conformed_target.has_slice:
+        if conformed_target.has_unsliced_sort:
             raise RelationalAlgebraError(
                 f"Materializing relation {conformed_target} will not preserve row order."
             )
@@ -391,11 +391,11 @@ class Engine(
         appended : `Select`
             Conformed relation tree that includes the given operation.
         """  # noqa: D401
-        if lhs.has_sort and not lhs.has_slice:
+        if lhs.has_unsliced_sort:
             raise RelationalAlgebraError(
                 f"Applying binary operation {operation} to relation {lhs} will not preserve row order."
             )
-        if rhs.has_sort and not rhs.has_slice:
+        if rhs.has_unsliced_sort:
             raise RelationalAlgebraError(
                 f"Applying binary operation {operation} to relation {rhs} will not preserve row order."
             )
